@@ -200,8 +200,30 @@ StagesBlame(cfg, chain) ==
           \/ (cfg.paired /\ ObservedLabels(chain, TRUE) # ExpectedLabels(cfg, TRUE))
           \/ ~OrderOK(cfg, chain) THEN {"stages"} ELSE {}
 
-RECURSIVE BlameFrom(_, _, _, _, _, _)
-BlameFrom(cfg, table, chain, i, p1, p2) ==
+\* a quality-trimming stage that deviates: if what that stage produced *for every read of the run* is what the
+\* other mate's option (or a mixture of the two options' non-zero cutoffs) produces from the stage's input, the
+\* cutoffs reached the wrong mate ("qparams": which option acts on which read, C10); otherwise the trimming
+\* itself deviates ("qtrim", C13)
+StageIn(rd, i, second) ==
+  IF i = 1 THEN (IF second THEN Rd0(rd.in2.seq, rd.in2.qual) ELSE Rd0(rd.in1.seq, rd.in1.qual))
+  ELSE LET st == rd.obs.chain[i - 1] IN IF second THEN Rd0(st.s2, st.q2) ELSE Rd0(st.s1, st.q1)
+RunExplained(e, i, second, c) ==
+  \A k2 \in 1..Len(e.reads) :
+     LET ch == e.reads[k2].obs.chain IN
+     (i <= Len(ch) /\ (IF second THEN ch[i].l2 ELSE ch[i].l1) = "qtrim") =>
+        LET x == QualStage(StageIn(e.reads[k2], i, second), c, e.cfg.qbase)
+        IN x.seq = (IF second THEN ch[i].s2 ELSE ch[i].s1) /\ x.qual = (IF second THEN ch[i].q2 ELSE ch[i].q1)
+QLabel(e, i, second) ==
+  LET cfg == e.cfg
+      own == IF second THEN cfg.q2 ELSE cfg.q1
+      oth == IF second THEN cfg.q1 ELSE cfg.q2
+      cands == {[on |-> TRUE, c5 |-> a, c3 |-> b] : a \in {own.c5, oth.c5}, b \in {own.c3, oth.c3}}
+      expl == {c \in cands : /\ <<c.c5, c.c3>> # <<own.c5, own.c3>>
+                              /\ (c.c5 # own.c5 => c.c5 > 0) /\ (c.c3 # own.c3 => c.c3 > 0)
+                              /\ RunExplained(e, i, second, c)}
+  IN IF cfg.paired /\ oth.on /\ expl # {} THEN "qparams" ELSE "qtrim"
+RECURSIVE BlameFrom(_, _, _, _, _, _, _)
+BlameFrom(e, cfg, table, chain, i, p1, p2) ==
   IF i > Len(chain) THEN {}
   ELSE LET st == chain[i]
            n1 == Rd0(st.s1, st.q1)
@@ -209,13 +231,13 @@ BlameFrom(cfg, table, chain, i, p1, p2) ==
            here ==
              IF st.l1 = "adapter" \/ st.l2 = "adapter" THEN AdapterBlame(cfg, table, p1, p2, st)
              ELSE (IF st.l1 \notin {"", "unknown"} /\ (LET x == StageApply(st.l1, st.a1, cfg, p1, FALSE) IN x.seq # st.s1 \/ x.qual # st.q1)
-                   THEN {st.l1} ELSE {})
+                   THEN {IF st.l1 = "qtrim" THEN QLabel(e, i, FALSE) ELSE st.l1} ELSE {})
                   \cup (IF cfg.paired /\ st.l2 \notin {"", "unknown"} /\ (LET y == StageApply(st.l2, st.a2, cfg, p2, TRUE) IN y.seq # st.s2 \/ y.qual # st.q2)
-                        THEN {st.l2} ELSE {})
-       IN here \cup BlameFrom(cfg, table, chain, i + 1, n1, n2)
+                        THEN {IF st.l2 = "qtrim" THEN QLabel(e, i, TRUE) ELSE st.l2} ELSE {})
+       IN here \cup BlameFrom(e, cfg, table, chain, i + 1, n1, n2)
 Blame(e, k) ==
   LET rd == e.reads[k] IN
-  BlameFrom(e.cfg, rd.table, rd.obs.chain, 1, Rd0(rd.in1.seq, rd.in1.qual), Rd0(rd.in2.seq, rd.in2.qual))
+  BlameFrom(e, e.cfg, rd.table, rd.obs.chain, 1, Rd0(rd.in1.seq, rd.in1.qual), Rd0(rd.in2.seq, rd.in2.qual))
   \cup StagesBlame(e.cfg, rd.obs.chain)
 PrintBlame(e, k) == \A b \in Blame(e, k) : PrintT(<<"BLAME", e.id, k, b>>)
 
